@@ -4,6 +4,7 @@ SM = "./pkg/pdfcpu/safemath"
 
 TY = "./pkg/pdfcpu/types"
 FI = "./pkg/filter"
+FO = "./pkg/font"
 API = "./pkg/api"
 PD = "./pkg/pdfcpu"
 MO = "./pkg/pdfcpu/model"
@@ -50,6 +51,20 @@ PROPS = {
         outside="names longer than N bytes (reserved device names of 4 characters such as COM1 need N >= 4: thorough tier); the call sites that join the sanitised name to the output directory and the collision check between two attachments",
         harnesses=[dict(name="VerifSanitizedPath", bounds=dict(quick=dict(N=2), thorough=dict(N=3)), opts=dict(unwind=100)),
                    dict(name="VerifSanitizedPathDeep", bounds=dict(quick=dict(K=13), thorough=dict(K=18)), opts=dict(unwind=600))],
+    ),
+    "C06": dict(
+        pkg=FO,
+        explanation="commitCollectionFonts / rollbackCollectionFonts / syncCollectionDirectories executed on the interpreted file system with the real operation table wrapped by fault injection: batches of 1..FONTS staged fonts, each target pre-existing or not (symbolic choice), the first injected failure at any operation call, optionally a second one during rollback; post-state compared with the exact previous directory tree",
+        outside="single-font installs (installFonts / commitStagedFontsWithOperations in pkg/api), certificate import and cheat-sheet publication (same pattern, harness not written); the staging step that parses fonts; more than two failures",
+        assumptions=["file system contract of rt/vfs.go"],
+        harnesses=[dict(name="VerifCollectionCommit", bounds=dict(quick=dict(FONTS=2, CALLS=14), thorough=dict(FONTS=3, CALLS=22)), opts=dict(unwind=3000))],
+    ),
+    "C07": dict(
+        pkg=FO,
+        explanation="writeGobWithOperations executed with every operation of its table wrapped: the harness records the operation trace and checks the durability protocol for every position of one injected failure: data flushed (fsync after the last write/chmod) before the rename that publishes the font name, directory flushed after the rename before success is reported, target untouched and no temporary file left on failure",
+        outside="the power-loss model is the ordering argument (rename of an unflushed file may surface truncated data; an unflushed directory entry may be lost), not an enumeration of post-crash disk states; collection installs (syncDir calls are exercised by C06 but their ordering is not asserted); encoding/gob itself (replaced by a writer of fixed bytes)",
+        assumptions=["POSIX durability contract: fsync(file) makes data durable, fsync(dir) makes entries durable, rename is atomic"],
+        harnesses=[dict(name="VerifGobDurable", bounds=dict(quick=dict(CALLS=10), thorough=dict(CALLS=12)), opts=dict(unwind=3000))],
     ),
     "C12": dict(
         pkg=TY,
